@@ -39,8 +39,10 @@ fn main() {
         writeln!(out, "BEGIN").unwrap();
         LOG.with(|l| for e in l.borrow().iter() {
             match e {
-                Ev::Assume { ok } => writeln!(out, "ASSUME {}", *ok as u8).unwrap(),
-                Ev::AssumeEq { a, b } => writeln!(out, "ASSUMEEQ {} | {}", shows(a), shows(b)).unwrap(),
+                Ev::Assume { ok, lemma: None } => writeln!(out, "ASSUME {}", *ok as u8).unwrap(),
+                Ev::Assume { ok, lemma: Some(l) } => writeln!(out, "ASSUME {} @{}", *ok as u8, l).unwrap(),
+                Ev::AssumeEq { a, b, lemma: None } => writeln!(out, "ASSUMEEQ {} | {}", shows(a), shows(b)).unwrap(),
+                Ev::AssumeEq { a, b, lemma: Some(l) } => writeln!(out, "ASSUMEEQ @{} {} | {}", l, shows(a), shows(b)).unwrap(),
                 Ev::Assert { id, ok } => writeln!(out, "ASSERT {} {}", id.replace(' ', "_"), *ok as u8).unwrap(),
                 Ev::AssertEq { id, a, b } => writeln!(out, "ASSERTEQ {} {} | {}", id.replace(' ', "_"), shows(a), shows(b)).unwrap(),
                 Ev::Cover { id } => writeln!(out, "COVER {}", id.replace(' ', "_")).unwrap(),
